@@ -554,4 +554,499 @@ theorem sympyStep_reads (fv : FloatOf) (n : Nat) (g : AGate)
   have := sympyStep_op fv n g hwf
   cases h : sympyStep g <;> simp [h, Step.reads] at this ⊢ <;> exact this
 
+/-! ## (a) totality -/
+
+theorem hasParam_none (fv : FloatOf) (p : Param) : hasParam Quirks.none fv p = (p != .none) := by
+  simp [hasParam, Quirks.none]
+
+theorem getLast?_of_len {α : Type} (l : List α) (k : Nat) (h : l.length = k + 1) :
+    ∃ t, l.getLast? = some t := by
+  cases hl : l.getLast? with
+  | some t => exact ⟨t, rfl⟩
+  | none =>
+    have : l = [] := List.getLast?_eq_none_iff.mp hl
+    subst this
+    simp at h
+
+theorem qiskitMethod_of_exportable {cls : GClass} (he : qiskitExportable cls = true)
+    (hx : ¬ isMCXg cls = true) (hz : ¬ isMCZg cls = true) (hn : ¬ cls.isNop = true) :
+    ∃ b k, qiskitMethod (pyClassLower cls) = some (b, k) ∧ kind cls = some (b, k) ∧
+      cls.nQubits = k + b.arity := by
+  cases cls <;> simp [qiskitExportable, isMCXg, isMCZg, GClass.isNop] at he hx hz hn
+  case MCtrl g n => rcases he with h | h <;> simp_all
+  all_goals exact ⟨_, _, rfl, rfl, rfl⟩
+
+theorem qiskitStep_total (fv : FloatOf) (gm : Bool) (n : Nat) (g : AGate)
+    (hwf : gateWF fv n g = true) (he : qiskitExportable g.cls = true) (m : String) :
+    qiskitStep Quirks.none fv gm g ≠ .fail m := by
+  have hlen := gateWF_len hwf
+  unfold qiskitStep
+  by_cases hx : isMCXg g.cls = true
+  · simp only [hx, ↓reduceIte]
+    obtain ⟨k, hk, hq⟩ := isMCXg_kind hx
+    obtain ⟨t, ht⟩ := getLast?_of_len g.wires k (by omega)
+    simp [ht]
+  simp only [hx]
+  by_cases hz : isMCZg g.cls = true
+  · simp [hz]
+  simp only [hz]
+  by_cases hb : g.cls = GClass.Barrier ∧ (!gm) = true
+  · simp [hb]
+  simp only [hb]
+  by_cases hn : g.cls.isNop = true
+  · simp [hn]
+  simp only [hn]
+  obtain ⟨b, k, hq, hk, hnq⟩ := qiskitMethod_of_exportable he hx hz hn
+  have hp := gateWF_param hwf hk
+  simp only [hq, Option.isSome_some, ↓reduceIte, Bool.false_eq_true]
+  have hr : (QkCall.meth (pyClassLower g.cls)
+      (if hasParam Quirks.none fv g.param = true then some g.param else none) g.wires).raises = false := by
+    simp only [QkCall.raises, QkCall.op, hq, hasParam_none]
+    cases hb : takesParam b with
+    | false => simp [hp.1 hb, hlen, hnq]
+    | true =>
+      obtain ⟨s, hs, _⟩ := hp.2 hb
+      simp [hs, hlen, hnq]
+  simp [hr]
+
+theorem cirqAttr_of_exportable {cls : GClass} (he : cirqExportable cls = true)
+    (hx : ¬ isMCXg cls = true) (hz : ¬ isMCZg cls = true) (hs : cls ≠ .Swap) (hc : cls ≠ .CP)
+    (hn : ¬ cls.isNop = true) :
+    ∃ b k, cirqAttr (cirqName cls) = some (b, k) ∧ cls.nQubits = k + b.arity := by
+  cases cls <;> simp [cirqExportable, isMCXg, isMCZg, GClass.isNop] at he hx hz hn hs hc
+  case MCtrl g n => rcases he with h | h <;> simp_all
+  all_goals exact ⟨_, _, rfl, rfl⟩
+
+theorem cirqStep_total (fv : FloatOf) (n : Nat) (g : AGate)
+    (hwf : gateWF fv n g = true) (he : cirqExportable g.cls = true) (m : String) :
+    cirqStep Quirks.none g ≠ .fail m := by
+  have hlen := gateWF_len hwf
+  unfold cirqStep
+  by_cases hx : isMCXg g.cls = true
+  · simp [hx]
+  simp only [hx]
+  by_cases hz : isMCZg g.cls = true
+  · simp [hz]
+  simp only [hz]
+  by_cases hs : g.cls = GClass.Swap
+  · simp only [hs, ↓reduceIte]
+    rw [hs] at hlen
+    match hw : g.wires, hlen with
+    | [a, b], _ => simp
+  simp only [hs]
+  by_cases hc : g.cls = GClass.CP
+  · simp only [hc, ↓reduceIte]
+    have hk : kind g.cls = some (.P, 1) := by rw [hc]; rfl
+    obtain ⟨s, hs, _⟩ := (gateWF_param hwf hk).2 rfl
+    rw [hc] at hlen
+    match hw : g.wires, hlen with
+    | [a, b], _ => simp [hs]
+  simp only [hc]
+  by_cases hn : g.cls.isNop = true
+  · simp [hn, Quirks.none]
+  have hn' : ¬ (g.cls.isNop = true ∧ (!Quirks.none.cirqNopRaises) = true) := fun h => hn h.1
+  simp only [hn']
+  obtain ⟨b, k, hq, hnq⟩ := cirqAttr_of_exportable he hx hz hs hc hn
+  simp [hq, CqOp.op, hlen, hnq]
+
+theorem sympyStep_total (fv : FloatOf) (n : Nat) (g : AGate)
+    (hwf : gateWF fv n g = true) (he : sympyExportable g.cls = true) (m : String) :
+    sympyStep g ≠ .fail m := by
+  have hlen := gateWF_len hwf
+  obtain ⟨cls, wires, param, gid⟩ := g
+  have hmcx : ∀ k, k ≠ 0 → wires.length = k + 1 → sympyMcx wires ≠ .fail m := by
+    intro k hk hl
+    obtain ⟨t, ht⟩ := getLast?_of_len wires k hl
+    obtain ⟨h1, h2⟩ := dropLast_getLast _ _ ht
+    have : wires.dropLast ≠ [] := by
+      intro e; rw [e] at h2; simp at h2; omega
+    simp [sympyMcx, ht, this]
+  cases cls <;> simp [sympyExportable] at he
+  case CCX => exact hmcx 2 (by decide) hlen
+  case MCX k => exact hmcx k he hlen
+  case X => simp [GClass.nQubits] at hlen; match wires, hlen with | [w], _ => simp [sympyStep]
+  case H => simp [GClass.nQubits] at hlen; match wires, hlen with | [w], _ => simp [sympyStep]
+  case CX => simp [GClass.nQubits] at hlen; match wires, hlen with | [a, b], _ => simp [sympyStep]
+  case Swap => simp [GClass.nQubits] at hlen; match wires, hlen with | [a, b], _ => simp [sympyStep]
+  all_goals simp [sympyStep]
+
+/-! ## (b) the read-back lines resolve to the circuit's operations -/
+
+theorem stripCs_nc (r : Text) (h : r.head? ≠ some 'c') : stripCs r = (0, r) := by
+  unfold stripCs
+  split
+  · simp at h
+  · rfl
+
+theorem stripCs_replicate (n : Nat) (r : Text) (h : r.head? ≠ some 'c') :
+    stripCs (List.replicate n 'c' ++ r) = (n, r) := by
+  induction n with
+  | zero => simpa using stripCs_nc r h
+  | succ n ih => simp [List.replicate_succ, stripCs, ih]
+
+theorem ofName_cases {g : String} {b : Base} (h : Base.ofName g = some b) :
+    lowerText g.toList = qasmName (match b with
+      | .I => .I | .X => .X | .Y => .Y | .Z => .Z | .H => .H | .S => .S | .T => .T | .P => .P
+      | .Swap => .Swap) ∧ baseOfQasm (lowerText g.toList) = some b ∧
+      (lowerText g.toList).head? ≠ some 'c' ∧ tokenOK (lowerText g.toList) = true := by
+  unfold Base.ofName at h
+  repeat' split at h
+  all_goals first | cases h | skip
+  all_goals (rename_i hg; subst hg; cases h; exact ⟨by decide, by decide, by decide, by decide⟩)
+
+
+theorem kindOfQasm_qasmName {cls : GClass} {bk : Base × Nat} (h : kind cls = some bk) :
+    kindOfQasm (qasmName cls) = some bk := by
+  cases cls
+  case MCX n =>
+    simp [kind] at h; subst h
+    simp [kindOfQasm, qasmName, stripCs_replicate n ['x'] (by decide), baseOfQasm]
+  case MCtrl g n =>
+    simp [kind] at h
+    obtain ⟨b, hb, rfl⟩ := h
+    obtain ⟨_, h2, h3, _⟩ := ofName_cases hb
+    simp [kindOfQasm, qasmName, stripCs_replicate n _ h3, h2]
+  all_goals first | (cases h; decide) | (simp [kind] at h)
+
+theorem mapOpt_map {α β : Type} (f : α → Option β) (g : α → β) :
+    ∀ (l : List α), (∀ a ∈ l, f a = some (g a)) → mapOpt f l = some (l.map g)
+  | [], _ => rfl
+  | a :: l, h => by
+    have ih := mapOpt_map f g l (fun x hx => h x (List.mem_cons_of_mem _ hx))
+    simp [mapOpt, h a (List.mem_cons_self ..), ih]
+
+theorem mapOpt_filterMap {α β γ : Type} (f : α → Option β) (h : β → Option γ) (t : α → Option γ) :
+    ∀ (l : List α), (∀ a ∈ l, match f a with
+        | none => t a = none
+        | some b => ∃ c, h b = some c ∧ t a = some c) →
+      mapOpt h (l.filterMap f) = some (l.filterMap t)
+  | [], _ => rfl
+  | a :: l, H => by
+    have ih := mapOpt_filterMap f h t l (fun x hx => H x (List.mem_cons_of_mem _ hx))
+    have ha := H a (List.mem_cons_self ..)
+    cases hf : f a with
+    | none => simp [hf] at ha; simp [hf, ha, ih]
+    | some b =>
+      simp [hf] at ha
+      obtain ⟨c, h1, h2⟩ := ha
+      simp [hf, h2, mapOpt, h1, ih]
+
+theorem mapOpt_map_left {α β : Type} (f : β → Option α) (g : α → β) :
+    ∀ (l : List α), (∀ a ∈ l, f (g a) = some a) → mapOpt f (l.map g) = some l
+  | [], _ => rfl
+  | a :: l, h => by
+    have ih := mapOpt_map_left f g l (fun x hx => h x (List.mem_cons_of_mem _ hx))
+    simp [mapOpt, h a (List.mem_cons_self ..), ih]
+
+theorem qasmRepaired_none : QasmRepaired Quirks.none := ⟨rfl, rfl⟩
+
+theorem qasmFormals_repaired {q : Quirks} (hq : QasmRepaired q) (c : Circ) :
+    qasmFormals q c = (List.range c.numQubits).map (nameOfIndex c.qmap) := by
+  simp [qasmFormals, hq.1]
+
+theorem indexOfName_formals {q : Quirks} (hq : QasmRepaired q) (c : Circ) (w : Nat)
+    (hw : w < c.numQubits) (hnd : (qasmFormals q c).Nodup) :
+    indexOfName (qasmFormals q c) (nameOfIndex c.qmap w) = some w := by
+  have hl : w < (qasmFormals q c).length := by simpa [qasmFormals_repaired hq] using hw
+  have := indexOfName_get (qasmFormals q c) w hl hnd
+  simpa [qasmFormals_repaired hq] using this
+
+/-- the body line of a non-nop gate in the repaired exporter -/
+def lineFor (q : Quirks) (fv : FloatOf) (c : Circ) (g : AGate) : QLine :=
+  ⟨qasmName g.cls, qasmParamText q fv g.param, g.wires.map (nameOfIndex c.qmap)⟩
+
+/-- the line the exporter prints for a well-formed non-nop gate -/
+theorem qasmLineOf_eq {q : Quirks} (hq : QasmRepaired q) (fv : FloatOf) (c : Circ) (g : AGate)
+    (n : Nat) (hwf : gateWF fv n g = true) {bk : Base × Nat} (hk : kind g.cls = some bk) :
+    qasmLineOf q fv c g = some (lineFor q fv c g) := by
+  obtain ⟨b, k⟩ := bk
+  have hp := gateWF_param hwf hk
+  have hw : mapOpt (qasmWireName q c) g.wires = some (g.wires.map (nameOfIndex c.qmap)) :=
+    mapOpt_map _ _ _ (fun w _ => by simp [qasmWireName, hq.1])
+  unfold qasmLineOf
+  rw [hw]
+  cases hb : takesParam b with
+  | false => simp [hp.1 hb, hasParam, hq.2, qasmParamText, lineFor]
+  | true =>
+    obtain ⟨s, hs, hv⟩ := hp.2 hb
+    obtain ⟨v, hv⟩ := Option.isSome_iff_exists.mp hv
+    cases h2 : q.qasmParam2f <;> simp [hs, hasParam, hq.2, qasmParamText, lineFor, h2, hv]
+
+theorem gateTOpQ_none (fv : FloatOf) (g : AGate) : gateTOpQ Quirks.none fv g = gateTOp g := by
+  unfold gateTOpQ gateTOp
+  cases kind g.cls <;> simp
+  cases g.param <;> simp [qasmParamText, Quirks.none]
+
+theorem lineOp_line {q : Quirks} (hq : QasmRepaired q) (fv : FloatOf) (c : Circ) (g : AGate)
+    (hwf : gateWF fv c.numQubits g = true)
+    {bk : Base × Nat} (hk : kind g.cls = some bk) (hnd : (qasmFormals q c).Nodup) :
+    lineOp (qasmFormals q c) (lineFor q fv c g) = gateTOpQ q fv g := by
+  have hall : ∀ w ∈ g.wires, w < c.numQubits := by
+    simp [gateWF, List.all_eq_true] at hwf
+    exact hwf.1.2
+  have hidx : mapOpt (indexOfName (qasmFormals q c)) (g.wires.map (nameOfIndex c.qmap)) = some g.wires := by
+    exact mapOpt_map_left _ _ _ (fun w hw => indexOfName_formals hq c w (hall w hw) hnd)
+  simp [lineOp, lineFor, kindOfQasm_qasmName hk, hidx, gateTOpQ, hk]
+
+theorem exportable_kind {cls : GClass} (he : qasmExportable cls = true) (hn : ¬ cls.isNop = true) :
+    ∃ bk, kind cls = some bk := by
+  simp [qasmExportable, hn] at he
+  exact Option.isSome_iff_exists.mp he
+
+/-- the lines of the body, read against the formals, are the circuit's operations -/
+theorem declOps_body {q : Quirks} (hq : QasmRepaired q) (fv : FloatOf) (c : Circ)
+    (hwf : ∀ g ∈ c.gates, gateWF fv c.numQubits g = true)
+    (he : ∀ g ∈ c.gates, qasmExportable g.cls = true)
+    (hnd : (qasmFormals q c).Nodup) :
+    mapOpt (lineOp (qasmFormals q c))
+      (c.gates.filterMap (fun g => if g.cls.isNop then none else qasmLineOf q fv c g)) =
+      some (c.gates.filterMap (gateTOpQ q fv)) := by
+  apply mapOpt_filterMap
+  intro g hg
+  by_cases hn : g.cls.isNop = true
+  · simp [hn, gateTOpQ, isNop_kind hn]
+  · obtain ⟨bk, hk⟩ := exportable_kind (he g hg) hn
+    simp only [hn, Bool.false_eq_true, ↓reduceIte, qasmLineOf_eq hq fv c g _ (hwf g hg) hk]
+    have ht : gateTOpQ q fv g = some ⟨bk.1, bk.2, g.wires, qasmParamText q fv g.param⟩ := by
+      simp [gateTOpQ, hk]
+    exact ⟨_, (lineOp_line hq fv c g (hwf g hg) hk hnd).trans ht, ht⟩
+
+/-! ## (c) readable tokens from conditions on the names -/
+
+theorem nameCharOK_spec {ch : Char} (h : nameCharOK ch = true) : ch ≠ ' ' ∧ ch ≠ '\n' ∧ ch ≠ '(' := by
+  refine ⟨?_, ?_, ?_⟩ <;> (rintro rfl; revert h; decide)
+
+theorem identOK_tokenOK {t : Text} (h : identOK t = true) : tokenOK t = true := by
+  simp only [identOK, tokenOK, Bool.and_eq_true, List.all_eq_true] at h ⊢
+  refine ⟨h.1, fun ch hc => ?_⟩
+  obtain ⟨h1, h2, h3⟩ := nameCharOK_spec (h.2 ch hc)
+  simp [h1, h2, h3]
+
+theorem natText_chars {i : Nat} {ch : Char} (h : ch ∈ natText i) : nameCharOK ch = true := by
+  have := Nat.isDigit_of_mem_toDigits (by decide) (by decide) h
+  simp [nameCharOK, Char.isAlphanum, this]
+
+theorem natText_inj {i j : Nat} (h : natText i = natText j) : i = j := by
+  have hi := @Nat.ofDigitChars_ten_toDigits i
+  have hj := @Nat.ofDigitChars_ten_toDigits j
+  unfold natText at h
+  rw [h] at hi
+  exact hi.symm.trans hj
+
+theorem fallback_identOK (i : Nat) : identOK ('q' :: natText i) = true := by
+  simp only [identOK, List.isEmpty_cons, Bool.not_false, Bool.true_and, List.all_cons, Bool.and_eq_true,
+    List.all_eq_true]
+  exact ⟨by decide, fun ch hc => natText_chars hc⟩
+
+theorem getKeyByIndex_mem {qmap : List (Text × Nat)} {i : Nat} {k : Text}
+    (h : getKeyByIndex qmap i = some k) : (k, i) ∈ qmap := by
+  unfold getKeyByIndex at h
+  cases hf : qmap.reverse.find? (fun kv => kv.2 == i) with
+  | none => simp [hf] at h
+  | some kv =>
+    simp [hf] at h
+    have hm := List.mem_of_find?_eq_some hf
+    have hp := List.find?_some hf
+    simp at hp hm
+    obtain ⟨a, b⟩ := kv
+    simp at h hp
+    subst h; subst hp
+    exact hm
+
+theorem keys_functional : ∀ (l : List (Text × Nat)), (l.map (·.1)).Nodup → ∀ k a b, (k, a) ∈ l → (k, b) ∈ l → a = b
+  | [], _, _, _, _, h, _ => by simp at h
+  | (k0, v0) :: l, hnd, k, a, b, ha, hb => by
+    simp only [List.map_cons, List.nodup_cons] at hnd
+    have hk : ∀ v, (k0, v) ∈ l → False := fun v hv => hnd.1 (List.mem_map.mpr ⟨(k0, v), hv, rfl⟩)
+    rcases List.mem_cons.mp ha with ha | ha <;> rcases List.mem_cons.mp hb with hb | hb
+    · cases ha; cases hb; rfl
+    · cases ha; exact absurd hb (hk b)
+    · cases hb; exact absurd ha (hk a)
+    · exact keys_functional l hnd.2 k a b ha hb
+
+structure WellNamedSpec (c : Circ) : Prop where
+  name : identOK c.name = true
+  keys : ∀ kv ∈ c.qmap, identOK kv.1 = true
+  nodup : (c.qmap.map (·.1)).Nodup
+  fallback : ∀ i, i < c.numQubits → getKeyByIndex c.qmap i = none →
+    ('q' :: natText i) ∉ c.qmap.map (·.1)
+
+theorem wellNamed_spec {c : Circ} (h : wellNamed c = true) : WellNamedSpec c := by
+  simp only [wellNamed, Bool.and_eq_true, List.all_eq_true, decide_eq_true_eq] at h
+  obtain ⟨⟨⟨h1, h2⟩, h3⟩, h4⟩ := h
+  refine ⟨h1, h2, h3, ?_⟩
+  intro i hi hnone hm
+  have := h4 i (List.mem_range.mpr hi)
+  simp [hnone] at this
+  simp at hm
+  obtain ⟨x, hx⟩ := hm
+  exact this x hx
+
+theorem nameOfIndex_identOK {c : Circ} (h : WellNamedSpec c) (i : Nat) :
+    identOK (nameOfIndex c.qmap i) = true := by
+  unfold nameOfIndex
+  cases hk : getKeyByIndex c.qmap i with
+  | none => simpa using fallback_identOK i
+  | some k => simpa using h.keys _ (getKeyByIndex_mem hk)
+
+theorem nameOfIndex_inj {c : Circ} (h : WellNamedSpec c) {i j : Nat} (hi : i < c.numQubits)
+    (hj : j < c.numQubits) (e : nameOfIndex c.qmap i = nameOfIndex c.qmap j) : i = j := by
+  unfold nameOfIndex at e
+  cases hki : getKeyByIndex c.qmap i with
+  | none =>
+    cases hkj : getKeyByIndex c.qmap j with
+    | none =>
+      simp [hki, hkj] at e
+      exact natText_inj e
+    | some k =>
+      simp [hki, hkj] at e
+      exact absurd (List.mem_map.mpr ⟨(k, j), getKeyByIndex_mem hkj, e.symm⟩) (h.fallback i hi hki)
+  | some k =>
+    cases hkj : getKeyByIndex c.qmap j with
+    | none =>
+      simp [hki, hkj] at e
+      exact absurd (List.mem_map.mpr ⟨(k, i), getKeyByIndex_mem hki, e⟩) (h.fallback j hj hkj)
+    | some k' =>
+      simp [hki, hkj] at e
+      subst e
+      exact keys_functional _ h.nodup k i j (getKeyByIndex_mem hki) (getKeyByIndex_mem hkj)
+
+theorem nodup_map_range {β : Type} (f : Nat → β) (n : Nat)
+    (hinj : ∀ i j, i < n → j < n → f i = f j → i = j) : ((List.range n).map f).Nodup := by
+  rw [List.Nodup, List.pairwise_map]
+  have := List.nodup_range (n := n)
+  rw [List.Nodup] at this
+  refine List.Pairwise.imp_of_mem ?_ this
+  intro a b ha hb hne e
+  exact hne (hinj a b (List.mem_range.mp ha) (List.mem_range.mp hb) e)
+
+theorem formals_nodup {q : Quirks} (hq : QasmRepaired q) {c : Circ} (h : WellNamedSpec c) :
+    (qasmFormals q c).Nodup := by
+  rw [qasmFormals_repaired hq]
+  exact nodup_map_range _ _ (fun i j hi hj e => nameOfIndex_inj h hi hj e)
+
+
+theorem tokenOK_replicate (n : Nat) (r : Text) (h : tokenOK r = true) :
+    tokenOK (List.replicate n 'c' ++ r) = true := by
+  simp only [tokenOK, Bool.and_eq_true, List.all_eq_true] at h ⊢
+  refine ⟨by cases r <;> simp at h ⊢, fun ch hc => ?_⟩
+  rcases List.mem_append.mp hc with hc | hc
+  · rw [(List.mem_replicate.mp hc).2]; decide
+  · exact h.2 ch hc
+
+theorem qasmName_tokenOK {cls : GClass} {bk : Base × Nat} (hk : kind cls = some bk) :
+    tokenOK (qasmName cls) = true := by
+  cases cls
+  case MCX n => exact tokenOK_replicate n ['x'] (by decide)
+  case MCtrl g n =>
+    simp [kind] at hk
+    obtain ⟨b, hb, _⟩ := hk
+    exact tokenOK_replicate n _ (ofName_cases hb).2.2.2
+  all_goals first | decide | (simp [kind] at hk)
+
+theorem kind_nQubits_pos {cls : GClass} {bk : Base × Nat} (hk : kind cls = some bk) :
+    0 < cls.nQubits := by
+  cases cls <;> simp [kind] at hk <;> simp [GClass.nQubits]
+
+theorem digit_plain {ch : Char} (h : ch.isDigit = true) : (ch != ' ' && ch != '\n') = true := by
+  have h1 : ch ≠ ' ' := by rintro rfl; revert h; decide
+  have h2 : ch ≠ '\n' := by rintro rfl; revert h; decide
+  simp [h1, h2]
+
+theorem natText_plain (i : Nat) : ∀ ch ∈ natText i, (ch != ' ' && ch != '\n') = true :=
+  fun _ hc => digit_plain (Nat.isDigit_of_mem_toDigits (by decide) (by decide) hc)
+
+theorem pad2_plain (n : Nat) : ∀ ch ∈ pad2 n, (ch != ' ' && ch != '\n') = true := by
+  intro ch hc
+  unfold pad2 at hc
+  split at hc
+  · rcases List.mem_cons.mp hc with hc | hc
+    · subst hc; decide
+    · exact natText_plain _ ch hc
+  · exact natText_plain _ ch hc
+
+/-- `{p:.2f}` prints sign, digits and a point -/
+theorem fmt2f_plain (v : FVal) : ptextOK (some (fmt2f v)) = true := by
+  simp only [ptextOK, fmt2f, List.all_eq_true]
+  intro ch hc
+  simp only [List.mem_append, List.mem_cons] at hc
+  rcases hc with (hc | hc) | hc | hc
+  · cases hn : v.neg <;> simp [hn] at hc
+    subst hc; decide
+  · exact natText_plain _ ch hc
+  · subst hc; decide
+  · exact pad2_plain _ ch hc
+
+theorem lineFor_ok (q : Quirks) (fv : FloatOf) {c : Circ} (h : WellNamedSpec c) (g : AGate)
+    (hwf : gateWF fv c.numQubits g = true) {bk : Base × Nat} (hk : kind g.cls = some bk)
+    (hp : paramPlain g.param = true) : lineOK (lineFor q fv c g) = true := by
+  have hlen := gateWF_len hwf
+  have hpos := kind_nQubits_pos hk
+  have hne : g.wires ≠ [] := by intro e; rw [e] at hlen; simp at hlen; omega
+  have hpt : ptextOK (qasmParamText q fv g.param) = true := by
+    cases hg : g.param <;> simp only [qasmParamText, ptextOK]
+    case lit s =>
+      cases h2 : q.qasmParam2f
+      · simpa [hg, paramPlain, ptextOK] using hp
+      · cases hv : fv s with
+        | none => simp [ptextOK]
+        | some v => exact fmt2f_plain v
+  simp only [lineOK, lineFor, Bool.and_eq_true, qasmName_tokenOK hk, hpt, List.all_eq_true]
+  refine ⟨⟨⟨trivial, trivial⟩, by simpa using hne⟩, ?_⟩
+  intro t ht
+  obtain ⟨w, _, rfl⟩ := List.mem_map.mp ht
+  exact identOK_tokenOK (nameOfIndex_identOK h w)
+
+/-- the repaired exporter returns on every well-formed circuit over the readable gate set: one
+line per non-nop gate -/
+theorem qasmBody_eq {q : Quirks} (hq : QasmRepaired q) (fv : FloatOf) (c : Circ)
+    (hwf : ∀ g ∈ c.gates, gateWF fv c.numQubits g = true)
+    (he : ∀ g ∈ c.gates, qasmExportable g.cls = true) :
+    qasmBody q fv c =
+      .ok (c.gates.filterMap (fun g => if g.cls.isNop then none else some (lineFor q fv c g))) := by
+  have hstep : ∀ g ∈ c.gates, qasmStep q fv c g =
+      if g.cls.isNop then .skip else .emit (lineFor q fv c g) := by
+    intro g hg
+    unfold qasmStep
+    by_cases hn : g.cls.isNop = true
+    · simp [hn]
+    · obtain ⟨bk, hk⟩ := exportable_kind (he g hg) hn
+      simp [hn, qasmLineOf_eq hq fv c g _ (hwf g hg) hk]
+  obtain ⟨out, ho⟩ := runSteps_total (qasmStep q fv c) c.gates (by
+    intro g hg m
+    rw [hstep g hg]
+    split <;> simp)
+  unfold qasmBody
+  rw [ho, (runSteps_ok_eq _ _ _ ho).1]
+  congr 1
+  apply filterMap_congr_mem
+  intro g hg
+  rw [hstep g hg]
+  split <;> simp [Step.toOption]
+
+theorem readable_of_wellNamed {q : Quirks} (hq : QasmRepaired q) (fv : FloatOf) (c : Circ)
+    (hwf : ∀ g ∈ c.gates, gateWF fv c.numQubits g = true)
+    (he : ∀ g ∈ c.gates, qasmExportable g.cls = true)
+    (hp : paramsPlain c.gates = true) (hn : wellNamed c = true) :
+    qasmReadable q fv c = true ∧ (qasmFormals q c).Nodup := by
+  have hs := wellNamed_spec hn
+  refine ⟨?_, formals_nodup hq hs⟩
+  unfold qasmReadable
+  rw [qasmBody_eq hq fv c hwf he]
+  simp only [Bool.and_eq_true, List.all_eq_true]
+  refine ⟨⟨identOK_tokenOK hs.name, ?_⟩, ?_⟩
+  · intro t ht
+    rw [qasmFormals_repaired hq] at ht
+    obtain ⟨i, _, rfl⟩ := List.mem_map.mp ht
+    exact identOK_tokenOK (nameOfIndex_identOK hs i)
+  · intro l hl
+    obtain ⟨g, hg, hgl⟩ := List.mem_filterMap.mp hl
+    by_cases hnop : g.cls.isNop = true
+    · simp [hnop] at hgl
+    · simp [hnop] at hgl
+      subst hgl
+      obtain ⟨bk, hk⟩ := exportable_kind (he g hg) hnop
+      simp only [paramsPlain, List.all_eq_true] at hp
+      exact lineFor_ok q fv hs g (hwf g hg) hk (hp g hg)
+
 end QV.Export
